@@ -15,7 +15,11 @@
 #include "net_async.h"
 #include "impl/ctx_impl.h"
 #include "impl/net_async_impl.h"
+#ifdef H_add_request
+#include "env/net_async_int_stubs.h"     /* see there: no static integer pool in this job */
+#else
 #include "types_base.c"
+#endif
 #include "env/net_async_env.h"
 #include "spec/async_inv.h"
 #include "env/net_async_addreq.h"
